@@ -75,7 +75,17 @@ impl BasicCreator {
         let atomic_content_pack_file = if let ConcatMode::OneFile = concat_mode {
             AtomicOutFile::new(&outpath)?
         } else {
-            AtomicOutFile::new(new_with_extension(&outpath, "jbkc"))?
+            let content_pack_path = new_with_extension(&outpath, "jbkc");
+            if content_pack_path == outpath {
+                // The content pack would be persisted at `outpath` and then be replaced by
+                // the file containing the other packs.
+                return Err(std::io::Error::new(
+                    std::io::ErrorKind::InvalidInput,
+                    format!("{outpath} is the path of the content pack, it cannot be the path of the container"),
+                )
+                .into());
+            }
+            AtomicOutFile::new(content_pack_path)?
         };
         // We may have only one (content) pack in the container so container may not be necessary.
         // But let's put all in a container. It is simpler and it can simplify things if
